@@ -88,7 +88,32 @@ def fam_C01(rng, tier):
                      weights={'read': 24, 'root': 2})
     cs += exhaustive_reads(rng, tier)
     cs += motif_histories(rng, tier)
+    cs += exhaustive_histories(rng, tier)
     return cs
+
+
+def exhaustive_histories(rng, tier):
+    """ALL histories of length <= L over a 9-operation alphabet, for small N, three kinds and a few
+    initial states (exhaustive small scope; L = 3 quick, 4 thorough)."""
+    import itertools
+    out = []
+    L = 4 if tier == 'thorough' else 3
+    for kind in ('u64', 'h256', 'u256'):
+        Z = zero_val(kind)
+        X = val(random.Random(7), kind, pzero=0.0)
+        alphabet = ['push 0 %s' % Z, 'push 0 %s' % X, 'getmut 0 0 %s' % X, 'getmut 0 2 %s' % Z, 'apply 0',
+                    'pop 0 1', 'pop 0 2', 'intra 0', 'rebase 0 1']
+        for N in ((3, 4, 5) if tier == 'thorough' else (4, 5)):
+            for init in ([], [X, Z], [Z] * N):
+                m = rng.choice(MAPS)
+                lines = [cfg_line((kind, N, m))]
+                for hist in itertools.product(alphabet, repeat=L):
+                    lines += ['new 0 list ' + ' '.join(init), 'clone 0 1', 'root 1']
+                    for op in hist:
+                        lines += [op, 'len 0', 'tovec 0']
+                    lines += ['apply 0', 'root 0', 'wf 0', 'tovec 1']
+                out.append(Case(lines, 'histories-exhaustive-len%d' % L, ('wellformed',), {'cfg': (kind, N, m)}))
+    return out
 
 
 def motif_histories(rng, tier):
